@@ -604,7 +604,7 @@ func (b *ShardBuilder) Add(doc Document) error {
 		mask |= m
 	}
 
-	if repoIdx > 1<<16 {
+	if repoIdx >= 1<<16 {
 		return fmt.Errorf("too many repos in shard: max is %d", 1<<16)
 	}
 
